@@ -13,6 +13,7 @@ from .shared_speed_logistic import SharedSpeedLogisticModel
 __all__ = [
     "ModelName",
     "model_factory",
+    "model_kind",
 ]
 
 
@@ -26,6 +27,20 @@ class ModelName(str, Enum):
     LME = "lme"
     CONSTANT = "constant"
     MIXTURE_LOGISTIC = "mixture_logistic"
+
+
+def model_kind(model: BaseModel) -> Optional[ModelName]:
+    """Return the :class:`ModelName` under which :func:`model_factory` builds the class of ``model`` (None if unknown)."""
+    classes = {
+        JointModel: ModelName.JOINT,
+        LogisticModel: ModelName.LOGISTIC,
+        LinearModel: ModelName.LINEAR,
+        SharedSpeedLogisticModel: ModelName.SHARED_SPEED_LOGISTIC,
+        LMEModel: ModelName.LME,
+        ConstantModel: ModelName.CONSTANT,
+        LogisticMultivariateMixtureModel: ModelName.MIXTURE_LOGISTIC,
+    }
+    return classes.get(type(model))
 
 
 def model_factory(
